@@ -152,8 +152,14 @@ static void muggle_socket_evloop_on_wake(muggle_event_loop_t *evloop)
 
 		muggle_socket_context_t *ctx = (muggle_socket_context_t*)node->data;
 
-		muggle_evloop_add_ctx(evloop, (muggle_event_context_t*)ctx);
-		if (handle->cb_add_ctx)
+		if (muggle_evloop_add_ctx(evloop, (muggle_event_context_t*)ctx) != 0)
+		{
+			// the event loop refused the context (e.g. poll capacity reached or
+			// invalid fd): it is owned by nobody now, so drop the reference that
+			// was handed over, exactly as on_exit does for contexts still queued
+			muggle_socket_evloop_release_ctx(evloop, ctx);
+		}
+		else if (handle->cb_add_ctx)
 		{
 			handle->cb_add_ctx(evloop, ctx);
 		}
